@@ -123,6 +123,44 @@ def canonKid : Kid → String
 def canonCell (t : CellTree) : String :=
   "c" ++ canonAttrs t.attrs ++ "{" ++ String.intercalate ";" (t.kids.map canonKid) ++ "}"
 
+/-! ## row attributes -/
+
+/-- the attributes `RowOpts.marshalAttrs` writes on the `<row>` element, in the order written -/
+def rowAttrList (o : RowOpts) : Attrs :=
+  (if o.style > 0 then [(lit "s", itoaInt o.style), (lit "customFormat", lit "1")] else [])
+  ++ (if o.h4 > 0 then [(lit "ht", fmtQuarter o.h4.toNat), (lit "customHeight", lit "1")] else [])
+  ++ (if o.outline > 0 then [(lit "outlineLevel", itoaInt o.outline)] else [])
+  ++ (if o.hidden then [(lit "hidden", lit "1")] else [])
+
+/-- the `xlsxRow` fields the in-memory setters leave for the same options: `SetRowStyle` (when a style is given),
+`SetRowHeight` (when a height is given), `SetRowOutlineLevel` (when a level is given), `SetRowVisible(!hidden)` -/
+structure RowRecMem where
+  s : Int
+  customFormat : Bool
+  ht : Option Nat          -- quarter points
+  hidden : Bool
+  customHeight : Bool
+  outlineLevel : Int
+  deriving DecidableEq, Repr
+
+def Spec.rowRec (o : RowOpts) : RowRecMem :=
+  { s := if o.style > 0 then o.style else 0, customFormat := o.style > 0,
+    ht := if o.h4 > 0 then some o.h4.toNat else none, customHeight := o.h4 > 0,
+    hidden := o.hidden, outlineLevel := if o.outline > 0 then o.outline else 0 }
+
+/-- what `encoding/xml` marshals for those fields, in the order of the struct tags of `xlsxRow`
+(`s`, `customFormat`, `ht`, `hidden`, `customHeight`, `outlineLevel`; all `omitempty` or nil pointer) -/
+def marshalRowAttrs (r : RowRecMem) : Attrs :=
+  (if r.s ≠ 0 then [(lit "s", itoaInt r.s)] else [])
+  ++ (if r.customFormat then [(lit "customFormat", lit "1")] else [])
+  ++ (match r.ht with | some q => [(lit "ht", fmtQuarter q)] | none => [])
+  ++ (if r.hidden then [(lit "hidden", lit "1")] else [])
+  ++ (if r.customHeight then [(lit "customHeight", lit "1")] else [])
+  ++ (if r.outlineLevel ≠ 0 then [(lit "outlineLevel", itoaInt r.outlineLevel)] else [])
+
+/-- attribute lookup (an element's attributes are a finite map) -/
+def attrOf (a : Attrs) (k : Bytes) : Option Bytes := (a.find? (fun p => p.1 = k)).map (·.2)
+
 /-- cells that survive a load/save cycle (`trimCell` drops cells with no style, value, type or formula) -/
 def XC.kept (c : XC) : Bool := c.s ≠ 0 || c.v ≠ [] || c.f.isSome || c.t ≠ []
 
